@@ -1,7 +1,7 @@
 (* C16 - A cloned record is an equal, independent copy.   PARTIAL (machine model as C04). *)
 From Coq Require Import List NArith Arith Permutation.
 From Truc.Model Require Import Layout Builder Ir Gen Exec Ops.
-From Truc.Proofs Require Import ExecP Holds.
+From Truc.Proofs Require Import ExecP Holds Life.
 Import ListNotations.
 
 Section C16.
@@ -43,9 +43,23 @@ Proof.
   destruct (set_holds ds TI rt A cap RT data L vals b i x Hb Hi) as (b' & E & _).
   exists b'. split; auto. apply (get_holds ds TI rt A cap RT data L (cloned vals) c j m Hc Hj).
 Qed.
+
+(* clone_from: every field of the target is assigned, through its mutable accessor, the copy / clone of the
+   source's field (`*self.f_mut() = *source.f()` or `self.f_mut().clone_from(source.f())`, in declaration
+   order).  Afterwards the target holds exactly the clone's values, nothing faulted, and what was destroyed
+   is exactly the target's previous droppable values, each once.  The source is not touched (it is only read). *)
+Theorem C16_clone_from : forall svals tvals t, holds ds TI cap A data tvals t ->
+  exists t' d, life ds TI rt t (assign_all (cloned svals) data) = Ok (t', d) /\
+               holds ds TI cap A data (cloned svals) t' /\
+               Permutation d (map tvals (filter (dr ds TI) data)).
+Proof. intros svals tvals t H. exact (assign_all_holds ds TI rt A cap RT data L (cloned svals) tvals t H). Qed.
 End C16.
 Print Assumptions C16_equal.
+Print Assumptions C16_clone_from.
 Print Assumptions C16_independent.
+
+(* a panic inside a field's clone: the generated clone() builds the field values as temporaries of one struct
+   literal, so what unwinding drops is rustc's - executed by E3 with a clone panicking at every tracked field. *)
 
 (* what the generator emits: every field of the variant, in declaration order, copied iff may-be-uninit;
    clone_from treats the same fields the same way (the dumper of engine E2 checks the two bodies agree) *)
